@@ -131,6 +131,18 @@ CLAIMED["C01"] = dict(
    note=TB + "Modelled, not verified: parse_handshake_response (its outcome - parsed / raised - is observed, see C07), asyncio.",
    design="DESIGN.md section 4, C01")
 
+CLAIMED["C07"] = dict(
+   technique="Lean 4 proof (total parsers by construction; loop bounds for read_str_null / connect attributes / parameter types; machine theorems for arbitrary scripts) + differential execution of mutated packets against the Lean parsers + work-budget / liveness measurement on the real server",
+   text="Theorems in lean/MimicProps/C07.lean: every model parser is a total function (kernel-accepted, no partial); read_str_null consumes at most the input; the "
+        "connect-attribute loop needs no more iterations than input bytes whatever length is claimed (fuel independence); a parameter block claiming n types needs 2n "
+        "bytes; for ANY script a packet induces, the connection writes the response or a prefix closed by exactly one ERR and is idle again or terminates (C03 instance); "
+        "a rejected command payload gives exactly one ERR and stays idle; a rejected handshake gives one ERR and is closed and released (C01/C10 instances). Tie: mutated "
+        "handshake responses / COM_QUERY attribute blocks through the real parsers vs Mimic.Packets / Mimic.Params (same parse or both reject); every mutated packet at "
+        "every session position on a real server under a sys.monitoring line budget with a witness connection, a newcomer, clean and abrupt departure of the "
+        "offender and a registry check. Partial: that the Python interpreter does bounded work is measured, not proved.",
+   note=TB + "Modelled, not verified: CPU work of the interpreter (measured as executed source lines of mysql_mimic), BytesIO.read semantics incl. OverflowError for lengths >= 2^63 (modelled), codecs utf-8/latin-1/ascii (other collations skipped at parser level). Not claimed: REGEX_PARAM cost on inputs with very many '?'.",
+   design="DESIGN.md section 4, C07")
+
 REASON_PENDING = "check not built yet (work in progress; see DESIGN.md section 9)"
 
 m = {
